@@ -197,7 +197,7 @@ Section GniTie.
   Ltac ev :=
     cbv beta iota zeta delta
         [exec eval eval_truth bind map_res truthy do_cmp do_arith do_index nat_cmp nat_arith
-         upd lookup env_of map assign_all cmp_name ar_name frame overlay
+         upd lookup env_of assign_all cmp_name ar_name frame overlay
          gni_prims prims_of table_lookup gni_table keys_are is_opaque0 sig_identity ensure_1d optsig iter_env
          gni_names gni_env0 gni_args params_get_next_imf
          gni_split gni_pre gni_cond gni_body gni_post
@@ -367,3 +367,4 @@ Section GniTie.
     Qed.
   End Fixed.
 End GniTie.
+
